@@ -841,6 +841,28 @@ func (c *EvalCtx) call(e *Expr) EV {
 		case "char":
 			a := c.Eval(args[0])
 			return EV{V: x.strChar(c.term(a, "char"), c.toIndex(c.Eval(args[1]))), T: types.Typ[types.Int32]}
+		case "atomicval":
+			loc := c.evalLoc(args[0])
+			lt := loc.Elem
+			var vt types.Type = types.Typ[types.Int64]
+			if strings.HasSuffix(types.TypeString(lt, nil), "atomic.Bool") {
+				vt = types.Typ[types.Bool]
+			}
+			return EV{V: x.atomicGet(c.st, loc, vt), T: vt}
+		case "mapsize":
+			a := c.Eval(args[0])
+			ov, ok := a.V.(*OpaqueV)
+			if !ok {
+				specFail("mapsize of %T", a.V)
+			}
+			return EV{V: x.mapSize(c.st, ov), T: tInt}
+		case "buflen", "bufbyte":
+			loc := c.evalLoc(args[0])
+			ct, n := x.bbGet(c.st, loc)
+			if name == "buflen" {
+				return EV{V: n, T: tInt}
+			}
+			return EV{V: x.Select(ct, c.toIndex(c.Eval(args[1]))), T: types.Typ[types.Uint8]}
 		case "sblen", "sbchar":
 			a := c.Eval(args[0])
 			pv, ok := a.V.(*PtrV)
@@ -1075,4 +1097,42 @@ func indexOffsets(body *Expr, v string) []*Expr {
 	}
 	walk(body)
 	return out
+}
+
+// evalLoc evaluates an expression to the LOCATION it denotes (pointer), e.g. m.received -> &m.received.
+func (c *EvalCtx) evalLoc(e *Expr) *PtrV {
+	switch e.Op {
+	case "sel":
+		var base *PtrV
+		if bv, ok := c.tryEvalPtr(e.Args[0]); ok {
+			base = bv
+		} else {
+			base = c.evalLoc(e.Args[0])
+		}
+		path, ft, found := fieldByName(base.Elem, e.Name)
+		if !found {
+			specFail("no field %s in %s", e.Name, base.Elem)
+		}
+		return &PtrV{IsNil: c.x.tb.False(), Obj: base.Obj, Idx: base.Idx, Path: append(append([]int(nil), base.Path...), path...), Elem: ft}
+	}
+	if bv, ok := c.tryEvalPtr(e); ok {
+		return bv
+	}
+	specFail("not a location: %s", e)
+	return nil
+}
+
+func (c *EvalCtx) tryEvalPtr(e *Expr) (p *PtrV, ok bool) {
+	defer func() {
+		if r := recover(); r != nil {
+			if _, isSpec := r.(specError); isSpec {
+				p, ok = nil, false
+				return
+			}
+			panic(r)
+		}
+	}()
+	v := c.Eval(e)
+	p, ok = v.V.(*PtrV)
+	return
 }
